@@ -92,6 +92,10 @@ func (a *statAcc) addRun(p *sdl.Program, o *model.Obs, nontrivial bool) {
 			}
 		}
 	}
+	if o.SleptS > 0 {
+		a.Probes["close-phase-simulated-seconds"] += o.SleptS
+		a.Probes["time-passed-while-closers-were-parked"]++
+	}
 	a.pathSigs[o.PathSig] = true
 	if nontrivial {
 		a.NonTrivial++
